@@ -92,7 +92,7 @@ def escape_obligations(ctx, rule, repo, entry, tolerant, allowed_families, what)
     return n
 
 
-def g_obligations(ctx, rule_prefix, repo, entries, rules=('G1', 'G2', 'G3', 'G4', 'G5', 'G6', 'G7', 'G9', 'G10', 'G11', 'G12')):
+def g_obligations(ctx, rule_prefix, repo, entries, rules=('G1', 'G2', 'G3', 'G4', 'G5', 'G6', 'G7', 'G9', 'G10', 'G11', 'G12', 'G14')):
     """REFUTED obligations for crash constructs in functions reachable from `entries`; one HOLDS
     obligation per rule summarising the scan."""
     prog = program(repo)
@@ -144,11 +144,13 @@ G_TEXT = {
            'separated only by optional parts)',
     'G11': 'G11: standard-library calls that raise for part of their domain (unicodedata.name without '
            'default) are given a default or are inside a handler for that exception',
+    'G14': 'G14: a local bound to a lookup with a literal default (pop/get/getattr) is only used through '
+           'attributes that the default\'s type has too',
     'G10': 'G10: a fixed module-level table is subscripted only with a literal member key, under a '
            'dominating membership test, or inside a handler for KeyError',
 }
 
 
-def declare_g(ctx, rules=('G1', 'G2', 'G3', 'G4', 'G5', 'G6', 'G7', 'G9', 'G10', 'G11', 'G12')):
+def declare_g(ctx, rules=('G1', 'G2', 'G3', 'G4', 'G5', 'G6', 'G7', 'G9', 'G10', 'G11', 'G12', 'G14')):
     for r in rules:
         ctx.rule(r, G_TEXT[r], 1)
